@@ -197,7 +197,7 @@ def run_case(case):  # noqa: C901
         if k not in seen:
             seen.add(k)
             out.append(v)
-    return {"key": [prog["ops"], prog["ranks"]], "evaluations": nstates, "keys": keys,
+    return {"key": None, "evaluations": nstates, "keys": keys,
             "nontrivial": True, "outcome": "ok" if not out else "violation", "violations": out[:8],
             "states": nstates, "transitions": ntrans, "traces": nstates, "counters": dict(counters),
             "sample": {"family": case["fam"], "faulted_variants": len(variants) - 1, "pairs": case.get("pairs", False)}}
